@@ -273,10 +273,33 @@ func (env *Env) eval(x Expr) (*Val, error) {
 			return nil, fmt.Errorf("bad array update %s", exprString(x))
 		}
 		return &Val{L: []Sc{{"(store " + a.L[0].T + " " + i.L[0].T + " " + v.L[0].T + ")", a.L[0].S}}}, nil
+	case *ESlice:
+		a, err := env.eval(x.X)
+		if err != nil {
+			return nil, err
+		}
+		if a.T == nil || len(a.L) != 4 {
+			return nil, fmt.Errorf("slice expression on a non-slice value %s", exprString(x.X))
+		}
+		if _, ok := a.T.Underlying().(*types.Slice); !ok {
+			return nil, fmt.Errorf("slice expression on a non-slice value %s", exprString(x.X))
+		}
+		lo, hi := "0", a.L[2].T
+		if x.Lo != nil {
+			if lo, err = env.evalInt(x.Lo); err != nil {
+				return nil, err
+			}
+		}
+		if x.Hi != nil {
+			if hi, err = env.evalInt(x.Hi); err != nil {
+				return nil, err
+			}
+		}
+		return &Val{T: a.T, L: []Sc{a.L[0], {addT(a.L[1].T, lo), "Int"}, {"(- " + hi + " " + lo + ")", "Int"}, {"(- " + a.L[3].T + " " + lo + ")", "Int"}}}, nil
 	case *EQuant:
 		n := *env
 		n.vars = copyVals(env.vars)
-		var binders []string
+		var binders, qnames []string
 		for _, qv := range x.Vars {
 			sort, gt, err := env.resolveType(qv.T)
 			if err != nil {
@@ -286,38 +309,56 @@ func (env *Env) eval(x Expr) (*Val, error) {
 			e.nfresh++
 			name := sym(fmt.Sprintf("q!%s!%d", qv.Name, e.nfresh))
 			binders = append(binders, "("+name+" "+sort+")")
+			qnames = append(qnames, name)
 			n.vars[qv.Name] = &Val{T: gt, L: []Sc{{name, sort}}}
 		}
 		nq := len(e.qbound)
 		for _, v := range x.Vars {
 			e.qbound = append(e.qbound, n.vars[v.Name].L[0].T)
+			e.qscope = append(e.qscope, [2]string{n.vars[v.Name].L[0].T, n.vars[v.Name].L[0].S})
 		}
 		b, err := n.evalBool(x.Body)
+		// explicit triggers (forall x T :: {t1, t2} {t3} body) are evaluated in the scope of the bound variables
+		var explicitPats string
+		var patErr error
+		if err == nil {
+			for _, grp := range x.Pats {
+				var ts []string
+				for _, pe := range grp {
+					pv, perr := n.eval(pe)
+					if perr != nil {
+						patErr = fmt.Errorf("trigger %s: %v", exprString(pe), perr)
+						break
+					}
+					if len(pv.L) != 1 {
+						patErr = fmt.Errorf("trigger %s is not a scalar term", exprString(pe))
+						break
+					}
+					ts = append(ts, pv.L[0].T)
+				}
+				explicitPats += " :pattern (" + strings.Join(ts, " ") + ")"
+			}
+		}
 		e.qbound = e.qbound[:nq]
+		e.qscope = e.qscope[:len(e.qscope)-len(x.Vars)]
 		if err != nil {
 			return nil, err
+		}
+		if patErr != nil {
+			return nil, patErr
 		}
 		q := "exists"
 		if x.Forall {
 			q = "forall"
 		}
-		if len(x.Pats) > 0 {
-			var ps string
-			for _, grp := range x.Pats {
-				var ts []string
-				for _, pe := range grp {
-					pv, err := n.eval(pe)
-					if err != nil {
-						return nil, fmt.Errorf("trigger %s: %v", exprString(pe), err)
-					}
-					if len(pv.L) != 1 {
-						return nil, fmt.Errorf("trigger %s is not a scalar term", exprString(pe))
-					}
-					ts = append(ts, pv.L[0].T)
-				}
-				ps += " :pattern (" + strings.Join(ts, " ") + ")"
+		if explicitPats != "" {
+			b = "(! " + b + explicitPats + ")"
+		} else if pats := selectPatterns(b, qnames); len(pats) > 0 && x.Forall {
+			var ps []string
+			for _, pt := range pats {
+				ps = append(ps, ":pattern ("+pt+")")
 			}
-			b = "(! " + b + ps + ")"
+			return mathVal("("+q+" ("+strings.Join(binders, " ")+") (! "+b+" "+strings.Join(ps, " ")+"))", "Bool"), nil
 		}
 		return mathVal("("+q+" ("+strings.Join(binders, " ")+") "+b+")", "Bool"), nil
 	case *ECall:
@@ -785,12 +826,27 @@ func (env *Env) evalCall(x *ECall) (*Val, error) {
 				case *types.Basic:
 					if u.Info()&types.IsString != 0 {
 						e.declFun("strlen", []string{"Str"}, "Int")
+						// (not for terms over ghost-function parameters or quantified variables: they are not in scope at top level)
+						if !strings.Contains(v.L[0].T, "|gp!") {
+							e.assertTyping("(<= 0 (strlen " + v.L[0].T + "))")
+						}
 						return mathVal("(strlen "+v.L[0].T+")", "Int"), nil
 					}
 				}
 			}
 			return nil, fmt.Errorf("len of %s not supported", exprString(x.Args[0]))
-		case "base", "off", "cap":
+		case "cap":
+			if _, shadow := env.vars["cap"]; !shadow && len(x.Args) == 1 {
+				v, err := env.eval(x.Args[0])
+				if err != nil {
+					return nil, err
+				}
+				if v.T == nil || len(v.L) != 4 {
+					return nil, fmt.Errorf("cap() needs a slice")
+				}
+				return mathVal(v.L[3].T, "Int"), nil
+			}
+		case "base", "off":
 			if _, shadow := env.vars[id.Name]; !shadow && len(x.Args) == 1 {
 				v, err := env.eval(x.Args[0])
 				if err != nil {
@@ -1279,6 +1335,21 @@ func (env *Env) havocTarget(st *State, x Expr) error {
 			return nil
 		}
 	case *ECall:
+		if id, ok := x.Fun.(*EIdent); ok && id.Name == "fieldof" && len(x.Args) == 2 {
+			tl, ok1 := x.Args[0].(*ETypeLit)
+			fn, ok2 := x.Args[1].(*EIdent)
+			if ok1 && ok2 {
+				keys, err := e.fieldKeys(tl.T, fn.Name, env.pkgPath, env.imports)
+				if err != nil {
+					return err
+				}
+				for _, k := range keys {
+					e.heapGet(st, k[0], k[1])
+					e.heapHavoc(st, k[0])
+				}
+				return nil
+			}
+		}
 		if id, ok := x.Fun.(*EIdent); ok && len(x.Args) == 1 {
 			switch id.Name {
 			case "elems":
@@ -1406,11 +1477,53 @@ func (e *Enc) bytesOf(st *State, v *Val) (*Val, error) {
 	if b, ok := sl.Elem().Underlying().(*types.Basic); !ok || b.Kind() != types.Uint8 {
 		return nil, fmt.Errorf("bytes() needs a []byte value")
 	}
+	h := e.heapGet(st, "S|"+typeStr(sl.Elem())+"|", "(Array Int (Array Int Int))")
+	return &Val{L: []Sc{{e.bseqTerm("(select "+h+" "+v.L[0].T+")", v.L[1].T, v.L[2].T), "Bytes"}}}, nil
+}
+
+// bseqTerm: the abstract content of the window [off, off+ln) of a byte backing array. When the prelude declares the
+// sequence vocabulary (ghost funcs blen / bempty / b1, see prelude 40_cpc_bytes.spec) the facts that tie a window to it
+// are asserted for this instance: its length, the empty window, the one-byte window.
+func (e *Enc) bseqTerm(arr, off, ln string) string {
 	e.declSort("Bytes")
 	f := e.declFun("bseq", []string{"(Array Int Int)", "Int", "Int"}, "Bytes")
-	h := e.heapGet(st, "S|"+typeStr(sl.Elem())+"|", "(Array Int (Array Int Int))")
+	t := "(" + f + " " + arr + " " + off + " " + ln + ")"
 	e.bytesInterpretation(f)
-	return &Val{L: []Sc{{"(" + f + " (select " + h + " " + v.L[0].T + ") " + v.L[1].T + " " + v.L[2].T + ")", "Bytes"}}}, nil
+	if e.bseqSeen == nil {
+		e.bseqSeen = map[string]bool{}
+	}
+	if e.bseqSeen[t] || len(e.boundIn(t)) > 0 {
+		// (no instance facts for windows that mention a quantified variable: they would have to be asserted as
+		// quantified facts, which costs the solvers more than it helps)
+		return t
+	}
+	e.bseqSeen[t] = true
+	if g, ok := e.DB.Ghosts["blen"]; ok && len(g.Params) == 1 && g.Body == nil {
+		if n, _, err := e.ghostSymbol(g); err == nil {
+			e.assert("(= (" + n + " " + t + ") " + ln + ")")
+		}
+	}
+	if g, ok := e.DB.Ghosts["bempty"]; ok && len(g.Params) == 0 && g.Body == nil {
+		if n, _, err := e.ghostSymbol(g); err == nil {
+			e.assert(implies(eq(ln, "0"), eq(t, n)))
+		}
+	}
+	if g, ok := e.DB.Ghosts["b1"]; ok && len(g.Params) == 1 && g.Body == nil {
+		if n, _, err := e.ghostSymbol(g); err == nil {
+			e.assert(implies(eq(ln, "1"), eq(t, "("+n+" (select "+arr+" "+off+"))")))
+		}
+	}
+	return t
+}
+
+// bcatFact: after append(s, t...) on byte slices the content of the result is the concatenation of the contents of
+// s and t (only when the prelude declares ghost func bcat).
+func (e *Enc) bcatFact(res, s, t string) {
+	if g, ok := e.DB.Ghosts["bcat"]; ok && len(g.Params) == 2 && g.Body == nil {
+		if n, _, err := e.ghostSymbol(g); err == nil {
+			e.assert(eq(res, "("+n+" "+s+" "+t+")"))
+		}
+	}
 }
 
 // bytesInterpretation: when the prelude declares the uninterpreted ghost functions `blen(b bytes) int` and
@@ -1468,4 +1581,127 @@ func (e *Enc) contentOf(st *State, v *Val) (*Val, error) {
 	args = append(args, v.L[1].T, v.L[2].T)
 	f := e.declFun(sym("cseq!"+typeStr(sl.Elem())), sorts, "Content")
 	return &Val{L: []Sc{{"(" + f + " " + strings.Join(args, " ") + ")", "Content"}}}, nil
+}
+
+// selectPatterns proposes triggers for a universally quantified clause: the innermost (select ...) terms of the body that
+// contain every bound variable (each one an alternative single-term pattern). Explicit triggers keep the solvers from
+// choosing multi-patterns or arithmetic sub-terms, which made index-wise facts about slices slow and solver-dependent.
+// No candidate -> no annotation (the solver chooses).
+func selectPatterns(body string, vars []string) []string {
+	seen := map[string]bool{}
+	var out []string
+	// positions of "(select "
+	for i := 0; i+8 <= len(body); i++ {
+		if body[i:i+8] != "(select " {
+			continue
+		}
+		// find the matching close paren
+		d := 0
+		j := i
+		inBar := false
+		for ; j < len(body); j++ {
+			c := body[j]
+			if c == '|' {
+				inBar = !inBar
+			}
+			if inBar {
+				continue
+			}
+			if c == '(' {
+				d++
+			} else if c == ')' {
+				d--
+				if d == 0 {
+					break
+				}
+			}
+		}
+		if j >= len(body) {
+			break
+		}
+		t := body[i : j+1]
+		all := true
+		for _, v := range vars {
+			if !strings.Contains(t, v) {
+				all = false
+				break
+			}
+		}
+		if !all {
+			continue
+		}
+		// innermost: no proper sub-term that is a select containing all variables
+		inner := false
+		for k := 1; k+8 <= len(t); k++ {
+			if t[k:k+8] == "(select " {
+				// sub select term
+				d2, m := 0, k
+				bar := false
+				for ; m < len(t); m++ {
+					c := t[m]
+					if c == '|' {
+						bar = !bar
+					}
+					if bar {
+						continue
+					}
+					if c == '(' {
+						d2++
+					} else if c == ')' {
+						d2--
+						if d2 == 0 {
+							break
+						}
+					}
+				}
+				sub := t[k : m+1]
+				ok := true
+				for _, v := range vars {
+					if !strings.Contains(sub, v) {
+						ok = false
+						break
+					}
+				}
+				if ok {
+					inner = true
+					break
+				}
+			}
+		}
+		if inner || seen[t] || strings.Contains(t, "(ite ") || strings.Contains(t, "(forall ") || strings.Contains(t, "(exists ") {
+			continue
+		}
+		seen[t] = true
+		out = append(out, t)
+	}
+	if len(out) > 6 {
+		return nil
+	}
+	if len(out) == 0 && len(vars) > 1 {
+		// no single term mentions every bound variable: one multi-pattern made of an innermost select term per variable
+		var multi []string
+		for _, v := range vars {
+			c := selectPatterns(body, []string{v})
+			// prefer a term that mentions no other bound variable
+			pick := ""
+			for _, t := range c {
+				clean := true
+				for _, w := range vars {
+					if w != v && strings.Contains(t, w) {
+						clean = false
+					}
+				}
+				if clean {
+					pick = t
+					break
+				}
+			}
+			if pick == "" {
+				return nil
+			}
+			multi = append(multi, pick)
+		}
+		return []string{strings.Join(multi, " ")}
+	}
+	return out
 }
